@@ -21,6 +21,12 @@ regions are enumerated with blocking clauses and the closure query is the covera
 (one epoch: whole domain; more epochs: generic stratum / its complement, see bounds_bd).  Sample shapes [2], [3] ([2,2]
 thorough) collide with the number of epochs, epoch times, taxa and internal nodes.
 
+Round-5 widening: (1) 'extra:switch ...' cases run the SWITCHING evaluation of the tree likelihood (underflow oracle in place of
+torch.isinf, calculate_treelikelihood_discrete_safe with the model's threshold, and the evaluation after it); (2) special values
+inside a batch (task modifier {'pin': ...}): one sample's entry is 0 / 1 / equal to another symbol while the others stay
+symbolic, so branches taken on any(param == c) over the whole batch are entered; (3) GeneralNonSymmetricSubstitutionModel
+(matrix_exp stub) and GeneralSymmetricSubstitutionModel: q, p_t alone, and inside the likelihood with K = 1 and K = S categories.
+
 Keys 'extra:' are further callable models (GMRFCovariate, ConstantCoalescentIntegratedModel, ScaleMixtureNormal,
 BayesianBridge, DeterministicNormal, GMRFGammaIntegrated, Distribution over torchtree's OneOnX / LogNormal) in the
 single-region scheme.  Not executable by the engine and therefore NOT covered: MultivariateNormal
@@ -103,17 +109,35 @@ def case_plinear():
     return [m], {'theta': P([2.0, 3.0], 0.01, None), 'tree.heights': P([1.0, 2.5], 0.01, None)}, 'm', {'heights_order': True}
 
 
-def case_subst(kind):
+def case_subst(kind, branch_lengths=None):
     """p_t of a substitution model as the evaluated quantity (value shape [S, 1, 1, 4, 4] flattened per sample)"""
     if kind == 'GTR':
         sm = {'id': 'subst', 'type': 'GTR', 'rates': {'id': 'rates', 'type': 'Parameter', 'tensor': [0.8, 1.1, 1.4, 1.7, 2.0, 2.3]},
               'frequencies': {'id': 'freqs', 'type': 'Parameter', 'tensor': [0.1, 0.2, 0.3, 0.4]}}
         params = {'rates': P([0.8, 1.1, 1.4, 1.7, 2.0, 2.3], 0.01, None), 'freqs': P([0.1, 0.2, 0.3, 0.4], 0.01, None)}
+    elif kind in ('GNS', 'GS'):
+        sm, params = general_subst_json(kind)
     else:
         sm = {'id': 'subst', 'type': 'HKY', 'kappa': {'id': 'kappa', 'type': 'Parameter', 'tensor': [3.0]},
               'frequencies': {'id': 'freqs', 'type': 'Parameter', 'tensor': [0.1, 0.2, 0.3, 0.4]}}
         params = {'kappa': P([3.0], 0.01, None), 'freqs': P([0.1, 0.2, 0.3, 0.4], 0.01, None)}
+    if branch_lengths is not None:
+        # p_t alone: constant branch lengths [B, K] (expanded over the sample shape of the model), value [.., B, K, 4, 4]
+        return [sm], params, 'subst', {'evaluate': 'p_t', 'bl': branch_lengths}
     return [sm], params, 'subst', {'evaluate': 'q'}
+
+
+GNS_RATES = [0.8, 1.1, 1.4, 1.7, 2.0, 2.3, 0.6, 0.9, 1.2, 1.5, 1.8, 2.1]
+
+
+def general_subst_json(kind):
+    """GeneralNonSymmetricSubstitutionModel (12 rates, matrix_exp) / GeneralSymmetricSubstitutionModel (6 rates, eigh) on 4 states"""
+    n = 12 if kind == 'GNS' else 6
+    sm = {'id': 'subst', 'type': 'GeneralNonSymmetricSubstitutionModel' if kind == 'GNS' else 'GeneralSymmetricSubstitutionModel',
+          'data_type': {'id': 'dt4', 'type': 'GeneralDataType', 'codes': ['A', 'C', 'G', 'T']},
+          'rates': {'id': 'rates', 'type': 'Parameter', 'tensor': GNS_RATES[:n]},
+          'frequencies': {'id': 'freqs', 'type': 'Parameter', 'tensor': [0.1, 0.2, 0.3, 0.4]}}
+    return sm, {'rates': P(GNS_RATES[:n], 0.01, None), 'freqs': P([0.1, 0.2, 0.3, 0.4], 0.01, None)}
 
 
 def case_gmrf():
@@ -186,7 +210,7 @@ def case_joint_mixed():
     return specs, {'a': P([0.3]), 'y': P([-1.0, 0.8]), 'a_scale': P([1.0], 0.01, None)}, 'm', {}
 
 
-def case_likelihood(tree_kind, site_kind, subst, categories=2, tip_states=False, mu=False, rescale=False):
+def case_likelihood(tree_kind, site_kind, subst, categories=2, tip_states=False, mu=False, rescale=False, switch=None):
     """TreeLikelihoodModel on 3 taxa / 3 site patterns.  Structural axes of the kernel: branches 4, rate categories K
     (1 constant, 2 invariant, `categories` Weibull), states 4, patterns 3 - the sample shapes of SHAPES_LIKE are chosen
     to collide with each of them.  Every parameter of the composite is in `params` (= may carry the sample dimension):
@@ -213,6 +237,9 @@ def case_likelihood(tree_kind, site_kind, subst, categories=2, tip_states=False,
         params['mu'] = P([1.3], 0.01, None)
     if subst == 'JC69':
         sm = {'id': 'subst', 'type': 'JC69'}
+    elif subst in ('GNS', 'GS'):
+        sm, sp = general_subst_json(subst)
+        params.update(sp)
     elif subst == 'GTR':
         sm = {'id': 'subst', 'type': 'GTR', 'rates': {'id': 'rates', 'type': 'Parameter', 'tensor': [0.8, 1.1, 1.4, 1.7, 2.0, 2.3]},
               'frequencies': {'id': 'freqs', 'type': 'Parameter', 'tensor': [0.1, 0.2, 0.3, 0.4]}}
@@ -224,7 +251,7 @@ def case_likelihood(tree_kind, site_kind, subst, categories=2, tip_states=False,
         params['kappa'] = P([3.0], 0.1, None)
         params['freqs'] = P([0.1, 0.2, 0.3, 0.4], 0.01, None)
     like = {'id': 'm', 'type': 'TreeLikelihoodModel', 'tree_model': tree, 'site_model': site, 'substitution_model': sm,
-            'site_pattern': {'id': 'sp', 'type': 'SitePattern', 'alignment': cm.alignment_json(SEQS_RESCALED if rescale else SEQS, taxa='taxa')}}
+            'site_pattern': {'id': 'sp', 'type': 'SitePattern', 'alignment': cm.alignment_json(SEQS_RESCALED if (rescale or switch) else SEQS, taxa='taxa')}}
     if tip_states:
         like['use_tip_states'] = True
     if tree_kind == 'strict':
@@ -235,7 +262,12 @@ def case_likelihood(tree_kind, site_kind, subst, categories=2, tip_states=False,
         like['branch_model'] = {'id': 'clock', 'type': 'SimpleClockModel', 'tree_model': 'tree',
                                 'rate': {'id': 'rate', 'type': 'Parameter', 'tensor': [0.01, 0.02, 0.015, 0.03]}}
         params['rate'] = P([0.01, 0.02, 0.015, 0.03], 0.0001, None)
-    return [like], params, 'm', {'heights_order': tree_kind != 'unrooted', 'likelihood': True, 'rescale': rescale}
+    opts = {'heights_order': tree_kind != 'unrooted', 'likelihood': True, 'rescale': rescale}
+    if subst in ('GNS', 'GS'):
+        opts['tilt'] = True  # rates of two samples must not be proportional: the normalised Q would be the same
+    if switch is not None:
+        opts['switch'] = dict(switch)
+    return [like], params, 'm', opts
 
 
 
@@ -481,6 +513,34 @@ CASES = {
 
 for _k in EXTRA_KINDS:
     CASES['extra:' + _k] = (lambda k: (lambda: case_extra(k)))(_k)
+# non-symmetric (matrix_exp) and general symmetric (eigh) substitution models: p_t alone and inside the likelihood composite with K = 1
+# and K = S rate categories (sample axis vs rate-category axis vs branch axis of Q * t).  Keys under prefixes that C12 leaves out.
+# the SWITCHING evaluation (plain pass reports an underflow, calculate_treelikelihood_discrete_safe runs) and the one after it
+SWITCH_COMPOSITES = {
+    'unrooted/weibull/HKY': dict(tree_kind='unrooted', site_kind='weibull', subst='HKY'),
+    'strict/weibull/JC69': dict(tree_kind='strict', site_kind='weibull', subst='JC69'),
+    'simple/invariant/JC69': dict(tree_kind='simple', site_kind='invariant', subst='JC69'),
+    'unrooted/constant+mu/HKY': dict(tree_kind='unrooted', site_kind='constant', subst='HKY', mu=True),
+    'unrooted/weibull3/GTR': dict(tree_kind='unrooted', site_kind='weibull', subst='GTR', categories=3),
+}
+SWITCH_VARIANTS = {
+    # name: (which nodes are below the threshold at the witness, which samples the oracle reports as underflowing, evaluate once more)
+    'all nodes rescaled, then the next evaluation': dict(nodes='all', verdict='all', second=True),
+    'root only rescaled': dict(nodes='root', verdict='all', second=False),
+    'only the first sample underflows': dict(nodes='all', verdict='first', second=False),
+}
+for _v, _sw in SWITCH_VARIANTS.items():
+    for _c, _kw in SWITCH_COMPOSITES.items():
+        CASES[f'extra:switch {_v}:{_c}'] = (lambda kw, sw: (lambda: case_likelihood(switch=sw, **kw)))(_kw, _sw)
+PT_BL1 = [[0.1], [0.3]]  # B = 2, K = 1
+PT_BL2 = [[0.1, 0.2], [0.3, 0.4], [0.25, 0.15]]  # B = 3, K = 2
+for _m in ('GNS', 'GS'):
+    CASES[f'substitution:{_m}.q'] = (lambda m: (lambda: case_subst(m)))(_m)
+    CASES[f'substitution:{_m}.p_t K=1'] = (lambda m: (lambda: case_subst(m, PT_BL1)))(_m)
+    CASES[f'substitution:{_m}.p_t B=3 K=2'] = (lambda m: (lambda: case_subst(m, PT_BL2)))(_m)
+    for _site, _cat in (('constant', 2), ('weibull', 2), ('weibull3', 3)):
+        CASES[f'extra:likelihood unrooted/{_site}/{_m}'] = (lambda m, st, c: (lambda: case_likelihood('unrooted', st.rstrip('3'), m, categories=c)))(_m, _site, _cat)
+    CASES[f'extra:likelihood strict/constant/{_m}'] = (lambda m: (lambda: case_likelihood('strict', 'constant', m)))(_m)
 # birth-death models (decided per path region, see run_region_task); 'thorough': only in the thorough tier
 BD_VARIANTS = {
     'bdsk:1 epoch/origin/rho/survival': (dict(m=1), 'quick'),
@@ -527,9 +587,112 @@ def build(specs):
     return dic
 
 
-def evaluate(obj, opts):
+import contextlib
+
+
+@contextlib.contextmanager
+def special_values(on):
+    """while a distinguished constant sits in the batch: division by the literal 0 (torch: nan / inf for that sample) yields a fresh
+    UNDEFINED symbol with that witness instead of an engine error.  A value of another sample that mentions the symbol differs
+    syntactically from its slice value, the solver is free to choose it, and the replay on the real code decides."""
+    if not on:
+        yield
+        return
+    from symtorch import HANDLERS, cur
+    from symtorch.tensor import _arith
+
+    def undef(d, a, b):
+        va = d.vals[a]
+        return cur().fresh('undefined', math.nan if (va == 0 or math.isnan(va)) else math.copysign(math.inf, va))
+
+    def div(d, a, b):
+        return undef(d, a, b) if (d.ops[b] == 'const' and d.cval(b) == 0) else d.div(a, b)
+
+    import symtorch.tensor as st_
+
+    strict_check = st_.check_vals
+
+    def relaxed_check(res_v, ids, what):
+        """entries that real torch reports as nan / inf (they belong to the sample with the distinguished value) are not
+        cross-checked: over the reals the engine simplifies 0 * x to 0 where IEEE gives 0 * inf = nan.  Finite entries - every
+        other sample - are checked as always."""
+        fin = torch.isfinite(res_v.to(torch.float64)) if res_v.dtype != torch.bool else None
+        if fin is None or bool(fin.all()):
+            return strict_check(res_v, ids, what)
+        if tuple(res_v.shape) != tuple(ids.shape):
+            return strict_check(res_v, ids, what)
+        if bool(fin.any()):
+            return strict_check(res_v[fin], ids[fin], what)
+
+    st_.check_vals = relaxed_check
+    names = ['div', 'div_', 'true_divide', 'true_divide_', '__truediv__', '__itruediv__', 'divide']
+    saved = {n: HANDLERS[n] for n in names + ['__rtruediv__', '__rdiv__']}
+    h = _arith('div', div, 2)
+    hr = _arith('rdiv', lambda d, a, b: div(d, b, a), 2)
+    for n in names:
+        HANDLERS[n] = h
+    HANDLERS['__rtruediv__'] = HANDLERS['__rdiv__'] = hr
+    try:
+        yield
+    finally:
+        HANDLERS.update(saved)
+        st_.check_vals = strict_check
+
+
+def evaluate_switching(obj, opts, who):
+    """The evaluation on which TreeLikelihoodModel detects an underflow: the plain pass runs, `torch.isinf(log_p)` is an underflow
+    ORACLE (over the reals a log-likelihood is never -inf; in floating point it is for large trees) that answers `underflow` on the
+    first evaluation - for every sample, or for the first sample of the batch only - so that calculate_treelikelihood_discrete_safe
+    runs with the model's threshold (public attribute) set so that at the witness all / only the root internal node(s) are below
+    it.  who: None for the batched model, else the flat index of the sample whose slice is evaluated (the oracle is a function of
+    the sample: slice k gets the verdict of sample k).  opts['switch']['second']: the value is the pair (switching evaluation,
+    next evaluation after a change notification of every parameter), so the state left behind by the switch is covered too."""
+    from symtorch import HANDLERS
+
+    sw = opts['switch']
+    obj.threshold = sw['thr']
+    calls = []
+
+    def bits(shape_x):
+        first = not calls
+        calls.append(1)
+        n = int(torch.Size(shape_x).numel())
+        if not first:
+            return torch.zeros(shape_x, dtype=torch.bool)
+        if who is None:
+            b = [True] * n if sw['verdict'] == 'all' else [True] + [False] * (n - 1)
+            return torch.tensor(b, dtype=torch.bool).reshape(shape_x)
+        return torch.full(shape_x, sw['verdict'] == 'all' or who == 0, dtype=torch.bool)
+
+    def run():
+        v1 = obj()
+        if not sw.get('second'):
+            return v1
+        ps = obj.parameters()
+        for q in ps:
+            q.tensor = q.tensor  # public setter: change notification, the likelihood is recomputed
+        if not ps:
+            obj.lp_needs_update = True
+        return torch.stack([v1, obj()], -1)
+
+    # the same oracle for the symbolic run (handler table) and for plain tensors (concrete replay, also when it runs inside a trace)
+    saved, real = HANDLERS['isinf'], torch.isinf
+    HANDLERS['isinf'] = lambda f, a, k: bits(tuple(a[0].shape))
+    torch.isinf = lambda x: bits(tuple(x.shape))
+    try:
+        return run()
+    finally:
+        HANDLERS['isinf'], torch.isinf = saved, real
+
+
+def evaluate(obj, opts, who=None):
+    if opts.get('switch'):
+        return evaluate_switching(obj, opts, who)
     if opts.get('evaluate') == 'q':
         return obj.q()
+    if opts.get('evaluate') == 'p_t':
+        bl = torch.tensor(opts['bl'], dtype=torch.float64)
+        return obj.p_t(bl.expand(tuple(obj.sample_shape) + tuple(bl.shape)))
     if opts.get('rescale'):
         obj.rescale = True  # the state TreeLikelihoodModel keeps after the first underflow: rescaled kernels from then on
     return obj()
@@ -627,6 +790,101 @@ def witness_differs(d, eq_node):
     return False
 
 
+def witness_value(b, i, off, lo, batched_sample, opts):
+    """initial witness of entry i of a parameter: per-sample offset; opts['tilt']: the offset also varies with the entry, so that two
+    samples are not a uniform rescaling of each other (a normalised rate matrix would then be the same in every sample)"""
+    f = off * (1 + 0.6 * ((3 * i) % 4) / 4) if opts.get('tilt') else off
+    return b * (1 + f) + (off if (lo is None and batched_sample) else 0)
+
+
+PIN_SAMPLE = 0  # flat index of the sample that carries the distinguished value
+
+
+def pin_text(pin):
+    to = pin['to']
+    what = (f'= {to}' if not isinstance(to, (tuple, list)) else (f'= its entry {to[1]}' if to[0] == 'entry' else f'= {to[1]}[{to[2]}]'))
+    return f"{pin['param']}[{pin['entry']}] of sample {PIN_SAMPLE} {what}"
+
+
+def pins_of(params, thorough=False):
+    """aliasing configurations: ONE sample's entry of a batched parameter is a distinguished constant (0, 1) or equal to another
+    symbol of the same sample (its neighbouring entry / the first entry of the next parameter), the other samples stay symbolic"""
+    names = [p for p in sorted(params) if p != 'tree.heights']
+    out = []
+    for k, p in enumerate(names):
+        n = len(params[p][0])
+        out.append({'param': p, 'entry': 0, 'to': 0.0})
+        out.append({'param': p, 'entry': 0, 'to': 1.0})
+        if n > 1:
+            out.append({'param': p, 'entry': 1, 'to': ('entry', 0)})
+            if thorough:
+                out.append({'param': p, 'entry': n - 1, 'to': 0.0})
+        if len(names) > 1:
+            q = names[(k + 1) % len(names)]
+            out.append({'param': p, 'entry': 0, 'to': ('param', q, 0)})
+    return out
+
+
+def log_split(d, tr, eq_node, what):
+    """a == b for two sums of integer multiples of logs whose terms group site by site: plain side c * log(P), rescaled side
+    c * log(X) + c * log(s1) + c * log(s2) with P == X * s1 * s2.  The grouping is read off the witness, every group identity is
+    PROVED by the solver (sub-terms shared by both sides generalised to fresh variables: a proof of the generalisation is a proof of
+    the instance), and a == b then follows from log(xy) = log x + log y for positive arguments (stated assumption).  True when
+    every group was proved and every term is used."""
+    import itertools
+
+    from symtorch.axioms import _addends
+    from symtorch.explore import prove
+
+    if d.ops[eq_node] != 'eq':
+        return False
+    a, b = d.args[eq_node]
+    A, B = list(_addends(d, a)), list(_addends(d, b))
+    if len(A) > len(B):
+        A, B = B, A
+
+    def is_log(t_):
+        return t_ is not None and d.ops[t_] == 'uf' and d.args[t_][0] == 'log'
+
+    if not A or not all(is_log(t_) for _, t_ in A + B):
+        return False
+    used = set()
+    for c, t_ in A:
+        P = d.args[t_][1]
+        cands = [i for i, (c2, _) in enumerate(B) if c2 == c and i not in used]
+        found = None
+        for r in range(1, min(4, len(cands)) + 1):
+            for comb in itertools.combinations(cands, r):
+                prod = 1.0
+                for i in comb:
+                    prod *= d.vals[d.args[B[i][1]][1]]
+                if abs(prod - d.vals[P]) > 1e-9 * abs(d.vals[P]):
+                    continue
+                # numerically a candidate group (a scaler that is 1 at the witness makes two groups candidates): the proof decides
+                rhs = 1
+                for i in comb:
+                    rhs = d.mul(rhs, d.args[B[i][1]][1])
+                g = d.eq(P, rhs)
+                if g != d.TRUE:
+                    ca, cb = set(d.topo([P])), set(d.topo([rhs]))
+                    shared = {n for n in (ca & cb) if d.ops[n] not in ('const', 'bconst')}
+                    below = {ch for n in shared for ch in d.children(n)}
+                    g_abs = cm.abstracted(d, [n for n in shared if n not in below], [g])[0]
+                    st, _, _ = prove(d, [], g_abs, timeout=20, tr=tr, parallel=True,
+                                     label=f'{what}: one site: plain site likelihood == rescaled site likelihood * scalers')
+                    if st != 'proved':
+                        continue
+                found = comb
+                break
+            if found:
+                break
+        if not found:
+            return False
+        used |= set(found)
+    return len(used) == len(B)
+
+
+
 def label_of(cname, batched, shape):
     label = f'{cname} batched={sorted(batched)}'
     if tuple(shape) != (S,):
@@ -635,6 +893,7 @@ def label_of(cname, batched, shape):
 
 
 def run_task(task, tr):
+    from symtorch.expr import EngineError
     from symtorch.tensor import UnsupportedOp
     from torchtree.core import model as coremodel
     from torchtree.distributions.joint_distribution import JointDistributionModel
@@ -649,11 +908,24 @@ def run_task(task, tr):
     label = label_of(cname, batched, shape)
     if cname.startswith(REGION_PREFIXES):
         return run_region_task(task, tr)
+    mods = task[3] if len(task) > 3 and isinstance(task[3], dict) else {}
+    pin = mods.get('pin')
+    if pin:
+        label += f' [{pin_text(pin)}]'
+        tr.bounds['special values'] = BOUNDS_PIN
     tr.fn(coremodel.CallableModel.__call__, JointDistributionModel.log_prob, TreeLikelihoodModel._call)
     tr.bounds['shapes'] = ('sample shape [2] for every case; quick: all-batched, each-one-unbatched, each-one-batched; '
                            'thorough: every subset at [2], and the quick selection at [3] and [2,2]; likelihood cases: see "likelihood"; '
                            'birth-death cases: see "birth-death"; extra: cases: [2] and [3] (quick), every subset and [2,2] (thorough)')
     specs, params, target, opts = CASES[cname]()
+    if opts.get('switch'):
+        tr.fn(tl.calculate_treelikelihood_discrete_safe, TreeLikelihoodModel.calculate_with_tip_partials)
+        tr.bounds['likelihood, switching evaluation'] = BOUNDS_SWITCH
+        tr.stubs.add('switching cases: torch.isinf(log_p) is an underflow oracle (true on the first evaluation, for every sample or for the first '
+                     'sample of the batch only; slice k gets the verdict of sample k); the concrete replay patches torch.isinf the same way')
+        if not resolve_switch(cname, batched, shape, opts, mods):
+            tr.notes.append(f'{label}: no threshold puts the root below and the cherry above it in every sample at the witness: configuration skipped')
+            return
     if opts.get('likelihood'):
         tr.fn(tl.calculate_treelikelihood_discrete, tl.calculate_treelikelihood_tip_states_discrete,
               SymmetricSubstitutionModel.p_t, TreeLikelihoodModel._sample_shape)
@@ -665,8 +937,8 @@ def run_task(task, tr):
                            'whose scaler would be an exact tie); parameter values are symbolic, topology and data are fixed')
         tr.assumptions.add('likelihood cases: over the reals every log-likelihood is finite, so the isinf test of _call takes the '
                            'non-rescaled kernel; the rescaled kernels are entered through the state rescale=True that the model keeps after '
-                           'a first underflow ("/rescaled" cases); calculate_treelikelihood_discrete_safe (the one call in which the '
-                           'underflow is detected) is not covered here - C03')
+                           'a first underflow ("/rescaled" cases) or through the underflow oracle of the "extra:switch" cases, which run '
+                           'calculate_treelikelihood_discrete_safe (the one call in which the underflow is detected) and the evaluation after it')
         if opts.get('rescale'):
             tr.fn(tl.calculate_treelikelihood_discrete_rescaled, tl.calculate_treelikelihood_tip_states_discrete_rescaled)
             tr.bounds['likelihood, rescaled kernels'] = ('decided on the path region of the witness only: the position of the per-site '
@@ -680,7 +952,7 @@ def run_task(task, tr):
         def symbols(pname, k, idx):
             vals, lo, hi = params[pname]
             off = 0.0 if idx is None else offset_of(k, nS)
-            vv = [v * (1 + off) + (off if lo is None else 0) for v in vals]
+            vv = [witness_value(v, i, off, lo, idx is not None, opts) for i, v in enumerate(vals)]
             nm = pname if idx is None else f'{pname}@{tag_of(idx)}'
             st = new_vars(nm, torch.tensor(vv, dtype=torch.float64))
             for i in st._ids.tolist():
@@ -698,6 +970,25 @@ def run_task(task, tr):
             for h in hs:
                 ids = h._ids.tolist()
                 dom.append(d.lt(ids[0], ids[1]))
+        pinned_idx = None
+        if pin:
+            # the pinned entry of ONE sample is a constant / another symbol of the same sample (its own symbol is no longer used)
+            pinned_idx = idxs[PIN_SAMPLE]
+            st = per_s[pin['param']][pinned_idx]
+            to = pin['to']
+            if isinstance(to, (tuple, list)):
+                src = st if to[0] == 'entry' else (per_s[to[1]][pinned_idx] if to[1] in batched else shared[to[1]])
+                nid = int(src._ids[to[1] if to[0] == 'entry' else to[2]])
+            else:
+                nid = d.const(float(to))
+            old_id = int(st._ids[pin['entry']])
+            st._ids[pin['entry']] = nid
+            st._v[pin['entry']] = d.vals[nid]
+            V = {n: i for n, i in V.items() if i != old_id}
+            dom = [c for c in dom if old_id not in d.topo([c])]
+            if not all(d.vals[c] for c in dom):
+                tr.notes.append(f'{label}: the distinguished value contradicts the stated domain at the witness: configuration skipped')
+                return
         # batched run
         A = build(specs)
         raised = None
@@ -709,22 +1000,25 @@ def run_task(task, tr):
                     A[p].tensor = from_ids(ids.reshape(shape + (ids.shape[-1],)))
                 else:
                     A[p].tensor = from_ids(shared[p]._ids.clone())
-            val = evaluate(A[target], opts)
+            with special_values(bool(pin)):
+                val = evaluate(A[target], opts)
         except Exception as e:  # unsupported shape combination: allowed to fail loudly
             raised = f'{type(e).__name__}: {e}'
-            engine = isinstance(e, UnsupportedOp)
+            # with a distinguished constant in the batch an arithmetic limitation of the ENGINE (e.g. log of the literal 0) must not
+            # pass for "the library fails with an error"
+            engine = isinstance(e, UnsupportedOp) or (bool(pin) and isinstance(e, EngineError))
         tr.witness_runs += 1
         tr.regions += 1
         if raised is not None and engine:
             # the ENGINE could not follow the code: that is not "the library fails with an error".  Decide on the real
             # code whether the configuration raises; if it returns a number the configuration is undecided.
             try:
-                rep, detail = replay_case(cname, batched, {}, shape)
+                rep, detail = replay_case(cname, batched, {}, shape, mods)
             except Exception as e:  # noqa
                 rep, detail = None, f'{type(e).__name__}: {e}'
             if rep is False and detail.startswith('batched evaluation raises'):
                 raised = detail
-            elif opts.get('likelihood'):
+            elif opts.get('likelihood') and not pin:
                 tr.inconc(f'{label}: symbolic engine limitation ({raised[:80]}) and the real code returns a value: undecided')
                 return
             else:
@@ -733,13 +1027,25 @@ def run_task(task, tr):
                                 f'concrete witness replay on the real code: {detail[:80]}')
                 tr.sample({'case': label, 'outcome': 'not decided (engine limitation)', 'error': raised[:100]})
                 if rep:
-                    tr.violation(f'{cname}:batched={sorted(batched)}:mixes-samples',
-                                 f'{label}: witness replay on the real code: {detail}', {'label': label, 'values': {}, 'shape': list(shape)})
+                    tr.violation(f'{cname}:batched={sorted(batched)}:' + ('shape' if detail.startswith('shape') else 'mixes-samples'),
+                                 f'{label}: witness replay on the real code: {detail}',
+                                 {'label': label, 'values': {}, 'shape': list(shape), 'case': cname, 'batched': sorted(batched), 'mods': mods})
                 return
         if raised is not None:
             tr.notes.append(f'{label}: raises ({raised[:80]}) - accepted: fails with an error rather than returning a number')
             tr.sample({'case': label, 'outcome': 'raises', 'error': raised[:100]})
             tr.obligation(f'raises:{label}', nontrivial=False)
+            return
+        if t.concretized and pin:
+            # e.g. the likelihood of the sample with the distinguished value is -inf and the real isinf test fires: the engine cannot
+            # follow a decision taken on a non-finite witness
+            rep, detail = replay_case(cname, batched, {}, shape, mods)
+            tr.bounds[f'NOT decided: {label}'] = f'a decision was taken on a non-finite value of the pinned sample ({t.concretized[0][:40]}); only the concrete witness replay was run'
+            tr.notes.append(f'{label}: NOT DECIDED ({t.concretized[0][:40]}); concrete witness replay on the real code: {detail[:80]}')
+            if rep:
+                tr.violation(f'{cname}:batched={sorted(batched)}:' + ('shape' if detail.startswith('shape') else 'mixes-samples'),
+                             f'{label}: witness replay on the real code: {detail}',
+                             {'label': label, 'values': {}, 'shape': list(shape), 'case': cname, 'batched': sorted(batched), 'mods': mods})
             return
         if t.concretized:
             tr.inconc(f'{label}: concretised {t.concretized[:2]}')
@@ -749,14 +1055,29 @@ def run_task(task, tr):
         if vb.dim() < len(shape) or tuple(vb.shape[:len(shape)]) != shape or vb.numel() % nS:
             goals.append((f'value has one entry per sample (shape {tuple(vb.shape)})', d.FALSE, [], f'{cname}:batched={sorted(batched)}:shape'))
         else:
-            for idx in idxs:
+            for k, idx in enumerate(idxs):
                 s = tag_of(idx)
                 B = build(specs)
                 for p in params:
                     src = per_s[p][idx] if p in batched else shared[p]
                     B[p].tensor = from_ids(src._ids.clone())
-                vs = evaluate(B[target], opts)
-                tr.witness_runs += 1
+                if idx == pinned_idx:
+                    # the sample that carries the distinguished value may be undefined (NaN) or raise in both runs: consistency only
+                    try:
+                        with special_values(True):
+                            vs = evaluate(B[target], opts, k)
+                    except Exception as e:
+                        tr.notes.append(f'{label}: the slice of the pinned sample alone raises ({type(e).__name__}: {str(e)[:50]}): no reference value for it')
+                        continue
+                    tr.witness_runs += 1
+                    fa = [d.vals[i] for i in vb[idx].reshape(-1).tolist()]
+                    fb = [d.vals[i] for i in vs._ids.reshape(-1).tolist()]
+                    if len(fa) == len(fb) and not all(math.isfinite(x) for x in fa) and not all(math.isfinite(x) for x in fb):
+                        tr.notes.append(f'{label}: the pinned sample is undefined (nan / inf) both in the batch and alone: consistent')
+                        continue
+                else:
+                    vs = evaluate(B[target], opts, k)
+                    tr.witness_runs += 1
                 a = vb[idx].reshape(-1).tolist()
                 b = vs._ids.reshape(-1).tolist()
                 if len(a) != len(b):
@@ -786,7 +1107,9 @@ def run_task(task, tr):
         # vacuity guard (solver): two samples must be able to produce different values, otherwise mixing
         # could not be observed
         shape_failed = any(g[1] == d.FALSE for g in goals)  # the value is not one entry per sample: a violation candidate, no guard needed
-        if nS >= 2 and vb.dim() >= len(shape) and tuple(vb.shape[:len(shape)]) == shape and not shape_failed:
+        if pin:
+            pass  # the same configuration without the distinguished value carries the guard
+        elif nS >= 2 and vb.dim() >= len(shape) and tuple(vb.shape[:len(shape)]) == shape and not shape_failed:
             a0, a1 = vb[idxs[0]].reshape(-1).tolist(), vb[idxs[1]].reshape(-1).tolist()
             cands = [(d.size([x, y]), d.eq(x, y)) for x, y in zip(a0, a1) if x != y]
             if not cands:
@@ -810,7 +1133,7 @@ def run_task(task, tr):
         tr.sample({'case': label, 'outcome': 'returns', 'shape': list(vb.shape), 'path_conditions': len(t.pcs)})
 
         def replay(vals):
-            return replay_case(cname, batched, vals, shape)
+            return replay_case(cname, batched, vals, shape, mods)
 
         before = len(tr.violations)
         # goals that are not closed syntactically: first ask for a counterexample AT the witness point (cheap `sat`), replay it
@@ -842,12 +1165,28 @@ def run_task(task, tr):
             rest = [g for g in rest if g[1] in (d.TRUE, d.FALSE)]
             if skipped:
                 tr.notes.append(f'{label}: {len(skipped)} further sample equalities not queried after the replayed counterexample')
+        if opts.get('switch') and opts['switch']['verdict'] != 'all' and not tr.violations[before:]:
+            # a sample whose own plain pass does not underflow: its slice value is the plain formula, its value in the batch went
+            # through the rescaling kernel - equal up to log(x / s) + log(s) = log(x), decided site by site
+            rest2 = []
+            for g in rest:
+                if g[1] not in (d.TRUE, d.FALSE):
+                    eqs = [g[1]] if d.ops[g[1]] == 'eq' else (list(d.args[g[1]]) if d.ops[g[1]] == 'and' else [])
+                    if eqs and all(log_split(d, tr, e, g[0]) for e in eqs):
+                        tr.assumptions.add('switching cases with a sample that does not underflow: every site likelihood and every scaler is positive '
+                                           '(log(xy) = log x + log y is applied to them); the per-site identities themselves are solver-proved')
+                        g = (g[0] + ' (site by site, log law)', d.TRUE) + tuple(g[2:])
+                rest2.append(g)
+            rest = rest2
         # eigen contract rows as hypotheses are not needed: the stub is functional (same input -> same symbols)
         cm.discharge(tr, d, hyps, rest, label, replay=replay, varnodes=V, defined=False, timeout=40,
                      threads=2, parallel=True)
         for v in tr.violations[before:]:
             if isinstance(v.get('replay'), dict):
-                v['replay'].update({'case': cname, 'batched': sorted(batched), 'shape': list(shape)})
+                v['replay'].update({'case': cname, 'batched': sorted(batched), 'shape': list(shape), 'mods': mods})
+                if opts.get('switch'):
+                    v['replay']['stubs'] = ['torch.isinf(log_p) replaced by the underflow oracle of evaluate_switching (verdict '
+                                            f"{opts['switch']['verdict']}), model.threshold = {opts['switch']['thr']!r}"]
 
 
 # ====================================================================== region-enumerating tasks (birth-death models)
@@ -1066,11 +1405,14 @@ def tie_substitution(tr, d, hyps, V):
     after this substitution they are compared syntactically again."""
     from symtorch.explore import prove
 
+    # candidates: the SAME entry of the same parameter in two samples with equal witness values (R@0[1] ~ R@1[1]); the solver's
+    # degenerate models give many unrelated symbols the same value, and every candidate costs a query
     by_val = {}
-    for n in sorted(V.values()):
-        by_val.setdefault(d.vals[n], []).append(n)
+    for name, n in sorted(V.items(), key=lambda kv: kv[1]):
+        key = (name.split('@')[0].split('[')[0], name[name.index('['):] if '[' in name else '')
+        by_val.setdefault((0.0,) if d.vals[n] == 0 else (d.vals[n],) + key, []).append(n)
     mapping = {}
-    for n in by_val.pop(0.0, []):
+    for n in by_val.pop((0.0,), []):
         # a symbol that the region pins to the boundary value 0 of its domain (rho = 0)
         st, _, _ = prove(d, hyps, d.eq(n, 0), timeout=15, tr=tr, label='tie lemma: an input symbol is zero on this region', parallel=True)
         if st == 'proved':
@@ -1151,6 +1493,17 @@ def run_region_task(task, tr):
                 return SIG_RHO0
         return f'{cname}:batched={sorted(batched)}:mixes-samples'
 
+    def float_tie_abort(e):
+        """a tie of the solver's point holds over the reals but real torch (float64) and the recorded expression disagree by an ulp on
+        which side of it the witness lies: this point cannot be executed consistently.  The enumeration of this configuration stops
+        here WITHOUT a coverage certificate (the regions explored so far keep their verdicts)."""
+        if 'path condition does not hold at witness' not in str(e) and 'path condition is constant false' not in str(e):
+            return False
+        state['float_abort'] = str(e)[:100]
+        ex.max_regions = 0
+        ex.require_closure = False
+        return True
+
     def body(t, V, W):
         d = t.dag
         A = build(specs)
@@ -1159,7 +1512,9 @@ def run_region_task(task, tr):
             val = evaluate(A[target], opts)
         except UnsupportedOp as e:
             raise EngineLimit(f'{type(e).__name__}: {e}')
-        except EngineError:
+        except EngineError as e:
+            if float_tie_abort(e):
+                return []
             raise
         except Exception as e:  # unsupported shape combination: allowed to fail loudly
             state['raised'].append(f'{type(e).__name__}: {e}')
@@ -1183,7 +1538,9 @@ def run_region_task(task, tr):
                 vs = evaluate(B[target], opts)
             except UnsupportedOp as e:
                 raise EngineLimit(f'{type(e).__name__}: {e}')
-            except EngineError:
+            except EngineError as e:
+                if float_tie_abort(e):
+                    return []
                 raise
             except Exception as e:  # no reference value for this sample on this region
                 state['slice_raises'] += 1
@@ -1254,6 +1611,13 @@ def run_region_task(task, tr):
         else:
             tr.inconc(f'{label}: symbolic engine limitation ({str(e)[:80]}) and the real code returns a value: undecided')
         return
+    if state.get('float_abort'):
+        if out.closed:
+            out.closed = False
+            tr.closures -= 1
+        out.regions = max(0, out.regions - 1)  # the last point was not executed
+        tr.notes.append(f'{label}: enumeration stopped at a point whose tie holds over the reals but not consistently in float64 '
+                        f'({state["float_abort"][:60]}): explored regions only')
     for smp in out.region_samples[:1]:
         smp['case'] = label
         tr.sample(smp)
@@ -1333,20 +1697,19 @@ def replay_region_case(cname, batched, vals, shape, slice_override=None):
     return False, 'agree'
 
 
-def replay_case(cname, batched, vals, shape=(S,)):
-    """plain tensors on the real code: batched evaluation against per-slice evaluations of freshly built copies"""
-    specs, params, target, opts = CASES[cname]()
-    shape = tuple(shape)
-    idxs = sample_indices(shape)
+def concrete_values(params, batched, vals, idxs, opts, mods):
+    """plain parameter values of one configuration: value(p, k, idx) for a batched sample, value(p, None, None) for a shared parameter.
+    Values the counterexample does not name take the initial witness; the distinguished value of `mods['pin']` is applied last."""
     nS = len(idxs)
+    pin = (mods or {}).get('pin')
 
-    def value(p, k, idx):
+    def raw(p, k, idx):
         base, lo, hi = params[p]
         names = cm.names_shaped(p if idx is None else f'{p}@{tag_of(idx)}', (len(base),))
         out = []
-        for nm, b in zip(names, base):
+        for i, (nm, b) in enumerate(zip(names, base)):
             off = 0.0 if idx is None else offset_of(k, nS)
-            v = vals.get(nm, b * (1 + off) + (off if (lo is None and idx is not None) else 0))
+            v = vals.get(nm, witness_value(b, i, off, lo, idx is not None, opts))
             if lo is not None and v <= lo:
                 v = lo + abs(b)
             if hi is not None and v >= hi:
@@ -1357,6 +1720,30 @@ def replay_case(cname, batched, vals, shape=(S,)):
             if out[0] == out[1]:
                 out[1] += 0.5
         return out
+
+    def value(p, k, idx):
+        out = raw(p, k, idx)
+        if pin and p == pin['param'] and idx is not None and k == PIN_SAMPLE:
+            to = pin['to']
+            if isinstance(to, (tuple, list)):
+                out[pin['entry']] = out[to[1]] if to[0] == 'entry' else (raw(to[1], k, idx) if to[1] in batched else raw(to[1], None, None))[to[2]]
+            else:
+                out[pin['entry']] = float(to)
+        return out
+
+    return value
+
+
+def replay_case(cname, batched, vals, shape=(S,), mods=None):
+    """plain tensors on the real code: batched evaluation against per-slice evaluations of freshly built copies.  With a pinned
+    (distinguished-value) sample: that sample may be undefined or raise alone - it is compared for consistency only (nan == nan)."""
+    specs, params, target, opts = CASES[cname]()
+    shape = tuple(shape)
+    idxs = sample_indices(shape)
+    pin = (mods or {}).get('pin')
+    if opts.get('switch') and not resolve_switch(cname, batched, shape, opts, mods):
+        return False, 'no threshold for this configuration'
+    value = concrete_values(params, batched, vals, idxs, opts, mods)
 
     A = build(specs)
     try:
@@ -1372,7 +1759,7 @@ def replay_case(cname, batched, vals, shape=(S,)):
     except Exception as e:
         return False, f'batched evaluation raises ({type(e).__name__}): accepted'
     if val.dim() < len(shape) or tuple(val.shape[:len(shape)]) != shape:
-        return True, f'value has shape {tuple(val.shape)}: not one entry per sample of sample shape {list(shape)}'
+        return True, f'shape: value has shape {tuple(val.shape)}: not one entry per sample of sample shape {list(shape)}'
     for k, idx in enumerate(idxs):
         B = build(specs)
         for p in params:
@@ -1380,10 +1767,63 @@ def replay_case(cname, batched, vals, shape=(S,)):
         for kk in ('freqs',):
             if kk in B:
                 B[kk].tensor = B[kk].tensor.to(torch.float64)
-        vs = evaluate(B[target], opts).to(torch.float64)
-        if vs.numel() != val[idx].numel() or not torch.allclose(val[idx].reshape(-1), vs.reshape(-1), rtol=1e-8, atol=1e-10):
+        pinned = bool(pin) and k == PIN_SAMPLE
+        try:
+            vs = evaluate(B[target], opts, k).to(torch.float64)
+        except Exception:
+            if pinned:
+                continue  # no reference value for the pinned sample
+            raise
+        if vs.numel() != val[idx].numel() or not torch.allclose(val[idx].reshape(-1), vs.reshape(-1), rtol=1e-8, atol=1e-10, equal_nan=pinned):
+            if pinned and vs.numel() == val[idx].numel() and not bool(torch.isfinite(val[idx]).all()) and not bool(torch.isfinite(vs).all()):
+                continue  # undefined in both runs
+            if vs.numel() != val[idx].numel():
+                return True, f'shape: sample {tag_of(idx)}: the batched value has {val[idx].numel()} entries per sample {val[idx].tolist()}, the slice alone gives {vs.tolist()}'
             return True, f'sample {tag_of(idx)}: batched value {val[idx].tolist()} but slice alone gives {vs.tolist()}'
     return False, 'agree'
+
+
+_SWITCH_THR = {}
+
+
+def resolve_switch(cname, batched, shape, opts, mods=None):
+    """model.threshold of a switching case, fixed from the plain partials at the initial witness (real code, plain tensors):
+    'all': above every per-site maximum of every internal node (every node is recomputed and rescaled);
+    'root': between the maxima of the root (below it in every sample) and of the cherry (not below it in any sample), so that only the
+    root is recomputed - in the batched run and in every slice.  False when no such threshold exists."""
+    sw = opts['switch']
+    key = (cname, frozenset(batched), tuple(shape))
+    if key not in _SWITCH_THR:
+        specs, params, target, popts = CASES[cname]()
+        popts = {k: v for k, v in popts.items() if k != 'switch'}
+        idxs = sample_indices(tuple(shape))
+        value = concrete_values(params, batched, {}, idxs, popts, None)
+        thr = None
+        try:
+            A = build(specs)
+            for p in params:
+                if p in batched:
+                    A[p].tensor = torch.tensor([value(p, k, idx) for k, idx in enumerate(idxs)], dtype=torch.float64).reshape(tuple(shape) + (-1,))
+                else:
+                    A[p].tensor = torch.tensor(value(p, None, None), dtype=torch.float64)
+            m = A[target]
+            m()
+            post = m.tree_model.postorder
+            mx = {}
+            for node in (int(post[0][0]), int(post[-1][0])):
+                t_ = m.partials[node].max(-2)[0]  # [..., K, N]
+                mx[node] = t_.reshape((len(idxs), -1)) if tuple(t_.shape[:len(shape)]) == tuple(shape) else t_.reshape((1, -1))
+            cherry, root = mx[int(post[0][0])], mx[int(post[-1][0])]
+            if sw['nodes'] == 'all':
+                thr = 1.5 * float(max(cherry.max(), root.max()))
+            else:
+                lo_, hi_ = float(root.min(-1)[0].max()), float(cherry.min())
+                thr = math.sqrt(lo_ * hi_) if 0 < lo_ < hi_ else None
+        except Exception:  # the batched evaluation raises: the configuration is decided as `raises` whatever the threshold
+            thr = 1.5
+        _SWITCH_THR[key] = thr
+    sw['thr'] = _SWITCH_THR[key]
+    return sw['thr'] is not None
 
 
 def subsets(names, tier):
@@ -1403,6 +1843,8 @@ def subsets(names, tier):
 
 BOUNDS_LIKE = ''  # set by body()
 BOUNDS_BD = ''  # set by body()
+BOUNDS_PIN = ''  # set by body()
+BOUNDS_SWITCH = ''  # set by body()
 
 
 def like_subsets(params, tier):
@@ -1521,6 +1963,57 @@ def bd_tasks(tier):
     return ts
 
 
+def switch_tasks(tier):
+    """the switching evaluation of the tree likelihood: sample shapes [2] (= number of internal nodes) and [3] (= number of site patterns)"""
+    thorough = tier == 'thorough'
+    ts = []
+    for vname in SWITCH_VARIANTS:
+        for comp in SWITCH_COMPOSITES:
+            cname = f'extra:switch {vname}:{comp}'
+            _, params, _, _ = CASES[cname]()
+            if not thorough and vname == 'root only rescaled' and comp not in ('unrooted/weibull/HKY', 'strict/weibull/JC69'):
+                continue
+            for shape in [(2,), (3,)] + ([(2, 2)] if thorough else []):
+                subs = subsets(params.keys(), 'thorough' if (thorough and shape == (2,)) else 'quick')
+                if not thorough and vname == 'only the first sample underflows':
+                    if shape != (2,):
+                        continue
+                    subs = [x for x in subs if len(x) == 1 or len(x) == len(params)]
+                for sub in subs:
+                    ts.append((cname, sub, shape))
+    return ts
+
+
+# likelihood composites that carry the distinguished-value configurations in the quick tier (thorough: every likelihood case)
+PIN_LIKELIHOOD_QUICK = ['likelihood:unrooted/constant/JC69', 'likelihood:strict/weibull/JC69', 'likelihood:simple/invariant/JC69',
+                        'likelihood:unrooted/weibull/HKY', 'likelihood:unrooted/invariant/HKY', 'likelihood:unrooted/constant/GTR']
+
+
+def pin_tasks(tier):
+    """special values inside a batch: for every batched parameter p (all parameters batched / p alone batched) one sample's entry is
+    0, 1, equal to its neighbouring entry or equal to the first entry of another parameter; see pins_of"""
+    thorough = tier == 'thorough'
+    ts = []
+    for cname in CASES:
+        if cname.startswith(REGION_PREFIXES) or cname.startswith('extra:switch '):
+            continue
+        if cname.startswith('likelihood:') and not thorough and cname not in PIN_LIKELIHOOD_QUICK:
+            continue
+        if cname.startswith('extra:likelihood') and not thorough:
+            continue
+        _, params, _, _ = CASES[cname]()
+        allp = frozenset(params)
+        like = cname.startswith(('likelihood:', 'extra:likelihood'))
+        minor = like and cname not in PIN_LIKELIHOOD_QUICK  # thorough only: all parameters batched, [2]
+        for pin in pins_of(params, thorough and not minor):
+            if like and (not thorough or minor) and isinstance(pin['to'], tuple) and pin['to'][0] == 'param':
+                continue
+            for sub in ([allp, frozenset([pin['param']])] if (len(allp) > 1 and not minor) else [allp]):
+                for shape in ([(2,), (3,)] if (thorough and not minor) else [(2,)]):
+                    ts.append((cname, sub, shape, {'pin': pin}))
+    return ts
+
+
 def tasks_for(tier):
     ts = []
     for cname in OLD_CASES:
@@ -1544,8 +2037,11 @@ def tasks_for(tier):
             for shape in OTHER_SHAPES_THOROUGH:
                 for sub in subsets(params.keys(), 'quick'):
                     ts.append((cname, sub, shape))
+    ts += switch_tasks(tier) + pin_tasks(tier)
     for cname in CASES:
-        if cname.startswith('extra:'):
+        if (cname.startswith('extra:') and not cname.startswith('extra:switch ')) or '.p_t' in cname:
+            if tier != 'thorough' and cname in ('extra:likelihood strict/constant/GS', 'extra:likelihood unrooted/weibull3/GS'):
+                continue  # the symmetric general model shares p_t with GTR (eigh): two of its four composites are thorough-only
             _, params, _, _ = CASES[cname]()
             for shape in ([(2,), (3,), (2, 2)] if tier == 'thorough' else [(2,), (3,)]):
                 for sub in subsets(params.keys(), tier if len(shape) == 1 else 'quick'):
@@ -1554,8 +2050,9 @@ def tasks_for(tier):
     seen = set()
     out = []
     for tsk in ts:
-        if tsk not in seen:
-            seen.add(tsk)
+        key = repr(tsk)
+        if key not in seen:
+            seen.add(key)
             out.append(tsk)
     # heavy (many samples) first: better packing over the worker pool
     out.sort(key=lambda x: -(1000 + x[4][0]) if x[0].startswith(REGION_PREFIXES) else -torch.Size(x[2]).numel())
@@ -1652,9 +2149,33 @@ def body(chk):
     chk.total.assumptions |= {'eigh is a functional contract stub (same symbolic input -> same symbols), so batched and sliced runs see the same eigen symbols',
                               'a batched evaluation that raises is accepted by the property ("fails with an error"); such configurations are listed in the notes',
                               'site models and node-height transforms are covered batched in C05 / C06'}
-    global BOUNDS_LIKE, BOUNDS_BD
+    global BOUNDS_LIKE, BOUNDS_BD, BOUNDS_PIN, BOUNDS_SWITCH
     BOUNDS_LIKE = bounds_like(chk.tier)
     BOUNDS_BD = bounds_bd(chk.tier)
+    thorough = chk.tier == 'thorough'
+    BOUNDS_PIN = ('special values inside a batch: for every case of the single-region scheme ('
+                  + 'likelihood cases: ' + ', '.join(c.split(':', 1)[1] for c in PIN_LIKELIHOOD_QUICK)
+                  + (' - every other likelihood case with all parameters batched at [2]' if thorough else '')
+                  + '; all coalescents, substitution q / p_t, GMRF, CTMC scale, tree prior, distributions, joints, extra: cases) and every parameter p '
+                  'except the node heights, with all parameters batched and with p alone batched, sample shape [2]' + (' and [3]' if thorough else '')
+                  + f': entry 0 of sample {PIN_SAMPLE} is the constant 0 / the constant 1 / (entry 1) the same symbol as entry 0 / the same symbol as '
+                  'the first entry of the next parameter' + ('' if thorough else ' (the last one not for the likelihood cases)')
+                  + ', every other entry of every sample stays symbolic. Every OTHER sample must equal its slice value (solver-decided as usual); '
+                  'the sample with the distinguished value is compared for consistency only (undefined in both runs, or equal; a slice that raises '
+                  'gives no reference). Division by the literal 0 yields a fresh undefined symbol; entries that real torch reports as nan / inf are '
+                  'not cross-checked against the engine value. Configurations in which the engine cannot follow a decision taken on a non-finite '
+                  'value are listed as "NOT decided" (concrete witness replay only). Birth-death cases: rho = 0 in one sample is a region of their '
+                  'closed domain (region enumeration), not a pinned configuration.')
+    BOUNDS_SWITCH = ('the evaluation that switches rescaling on (TreeLikelihoodModel.calculate_with_tip_partials: plain pass, underflow verdict, '
+                     'calculate_treelikelihood_discrete_safe with model.threshold) batched vs per slice, composites '
+                     + ', '.join(SWITCH_COMPOSITES) + ' (every parameter of each batchable), sample shapes [2] (= internal nodes) and [3] (= site patterns)'
+                     + (', [2,2]' if thorough else '') + '; variants: ' + '; '.join(SWITCH_VARIANTS)
+                     + ('' if thorough else ' (quick: "root only" on two composites; "only the first sample" at [2] for the all-batched and the single-parameter subsets)')
+                     + '. The underflow verdict is an oracle in place of torch.isinf (a stub: over the reals no log-likelihood is -inf); the threshold is '
+                     'fixed from the plain partials at the initial witness so that all internal nodes / only the root are below it in every sample; '
+                     'decided on the path region of the witness (which nodes are below the threshold, position of every per-site maximum): no '
+                     'coverage certificate over the other regions. A sample whose own verdict is "no underflow" is compared with the plain formula '
+                     'site by site through log(xy) = log x + log y (site likelihoods and scalers assumed positive), each site identity solver-proved.')
     pmap(run_task, tasks_for(chk.tier), chk.total)
     summarize_bd(chk.total)
 
